@@ -24,6 +24,10 @@ BODY_PRE = """    t1 := T.{ v = 1 };
     vi := ^s;
     cm :: ^mut s;
     am : ^S = ^mut s;
+    ii := ^vi;
+    im := ^vm;
+    mi := ^mut vi;
+    mm := ^mut vm;
 """
 
 
@@ -76,7 +80,7 @@ def run(chk):
         lines = PRELUDE.rstrip("\n").split("\n")
         where = {}
         for n, (c, op, stmt) in enumerate(tests[b:b + per]):
-            lines.append("f%d :: (ps: S, qm: ^mut S, qi: ^S) {" % n)
+            lines.append("f%d :: (ps: S, qm: ^mut S, qi: ^S, qii: ^^S, qmi: ^mut ^S, qmm: ^mut ^mut S) {" % n)
             lines += BODY_PRE.rstrip("\n").split("\n")
             lines.append("    " + stmt)
             where[len(lines)] = b + n
@@ -87,6 +91,7 @@ def run(chk):
         layout.append(where)
     results = common.run_batch(jobs, chk.wd, "mut")
     nacc = nrej = 0
+    mixed = {True: 0, False: 0}
     for job, where, r in zip(jobs, layout, results):
         if r.get("panic") or r.get("crash"):
             chk.violation({"kind": "front-end-crash", "job": job["id"]},
@@ -115,13 +120,18 @@ def run(chk):
                 nrej += 1
             else:
                 nacc += 1
+            if c.get("mixed"):
+                mixed[rejected] += 1
             if rejected == c["mutable"]:
-                chk.violation({"kind": "mutability", "stmt": stmt},
+                chk.violation({"kind": "mutability", "stmt": stmt, "root": c["root"],
+                               "mixed": bool(c.get("mixed")),
+                               "compiler": "rejected" if rejected else "accepted"},
                               {"statement": stmt, "op": op, "place_type": c["ty"],
                                "mutable_by_the_rule": c["mutable"],
                                "compiler": "rejected %s" % errs[line] if rejected else "accepted",
                                "context": BODY_PRE, "decls": PRELUDE,
-                               "how": "front end (hir_ty) on a function (ps: S, qm: ^mut S, qi: ^S) "
+                               "how": "front end (hir_ty) on a function (ps: S, qm: ^mut S, qi: ^S, qii: ^^S, qmi: ^mut ^S, "
+                                      "qmm: ^mut ^mut S) "
                                       "containing the statement"})
     for k in (10, 400, 1500):
         if k < len(tests):
@@ -132,6 +142,9 @@ def run(chk):
     chk.cov["accepted"] = nacc
     chk.cov["rejected"] = nrej
     chk.cov["exhaustive"] = True
+    chk.cov["mixed_paths"] = {"what": "places behind a ^mut pointer that was itself reached through an "
+                                      "immutable pointer (vi.pm.v, im^.a): the last pointer crossed decides",
+                              "compiler_accepted": mixed[False], "compiler_rejected": mixed[True]}
     chk.cov["rule"] = ("every chain of Mutability.tla (9 roots, <= MaxSteps steps of field / index / "
                        "deref / auto-deref field / auto-deref index / paren / #unwrap) x "
                        "{=, +=, ^mut}; one checked statement each")
